@@ -323,12 +323,23 @@ def run(check, ctx):
     point_ops(check, repo)
 
 
-def argument_mutation(check, repo):
+KDF_ENTRIES = [
+    ("Crypto.Protocol.KDF", "bcrypt", None, {"password": bytearray(b"secret"), "cost": 5, "salt": bytearray(b"s" * 16)}, ("password", "salt")),
+    ("Crypto.Protocol.KDF", "bcrypt", None, {"password": bytearray(b"p" * 71), "cost": 5, "salt": bytearray(b"s" * 16)}, ("password",)),
+    ("Crypto.Protocol.KDF", "bcrypt", None, {"password": bytearray(b"p" * 72), "cost": 5, "salt": bytearray(b"s" * 16)}, ("password",)),
+    ("Crypto.Protocol.KDF", "bcrypt_check", None, {"password": bytearray(b"secret"), "bcrypt_hash": bytearray(b"$2a$05$" + b"A" * 53)}, ("password", "bcrypt_hash")),
+    ("Crypto.Protocol.KDF", "scrypt", None, {"password": bytearray(b"pw" * 5), "salt": bytearray(b"s" * 8), "key_len": 16, "N": 4, "r": 1, "p": 1, "num_keys": 1}, ("password", "salt")),
+    ("Crypto.Protocol.KDF", "PBKDF1", None, {"password": bytearray(b"pw" * 5), "salt": bytearray(b"s" * 8), "dkLen": 16, "count": 2, "hashAlgo": "HASHMOD"}, ("password", "salt")),
+    ("Crypto.Protocol.KDF", "SP800_108_Counter", None, {"master": bytearray(b"m" * 16), "key_len": 16, "prf": "PRF", "num_keys": 1, "label": bytearray(b"lab"), "context": bytearray(b"ctx")}, ("master", "label", "context")),
+]
+
+
+def argument_mutation(check, repo, entries=None):
     """P4 for constructors and one-shot functions: a mutable byte string handed in by the caller (bytearray key, nonce,
     data, salt) has the same content afterwards.  Interpreted with concrete bytearrays; in-place operators (+=, slice
     assignment, extend) act on the caller's object."""
     H = "Crypto.Hash."
-    entries = [
+    base_entries = [
         (H + "HMAC", "HMAC.__init__", "HMAC", {"key": bytearray(b"k" * 20), "msg": bytearray(b"m" * 5), "digestmod": "HASH"}, ("key", "msg")),
         (H + "HMAC", "HMAC.__init__", "HMAC", {"key": bytearray(b"k" * 64), "msg": b"", "digestmod": "HASH"}, ("key",)),
         (H + "HMAC", "HMAC.__init__", "HMAC", {"key": bytearray(b"k" * 100), "msg": b"", "digestmod": "HASH"}, ("key",)),
@@ -341,13 +352,18 @@ def argument_mutation(check, repo):
         ("Crypto.Util.strxor", "strxor", None, {"term1": bytearray(b"a" * 4), "term2": bytearray(b"b" * 4)}, ("term1", "term2")),
     ]
     n = 0
+    own = entries is not None
+    entries = (list(entries) if own else base_entries + KDF_ENTRIES)
     for (mname, qual, cls, args, watched) in entries:
         mod = repo.module(mname)
         fn = repo.func(mod, qual)
+        args = dict((k, bytearray(v) if isinstance(v, bytearray) else v) for k, v in args.items())
 
         def m_hashnew(i, base, a, kw, st, node):
             return i.new_obj(st, label="hobj", attrs={"digest_size": 32, "block_size": 64})
-        it = Interp(repo, max_depth=3, method_models={
+        it = Interp(repo, max_depth=3, extra_models={
+            "Crypto.Protocol.KDF._bcrypt_hash": lambda i, a, kw, st, node: bytes(24),
+            "vstat.prf": lambda i, a, kw, st, node: bytes(32)}, method_models={
             "new": m_hashnew, "digest": lambda i, base, a, kw, st, node: bytes(32),
             "update": lambda i, base, a, kw, st, node: base, "copy": lambda i, base, a, kw, st, node: base,
             "encrypt": lambda i, base, a, kw, st, node: bytes(16)})
@@ -359,6 +375,8 @@ def argument_mutation(check, repo):
                 v = it.new_obj(st, label="hashmod", attrs={"digest_size": 32, "block_size": 64})
             elif v == "HASHMOD":
                 v = it.new_obj(st, label="hashmod", attrs={"digest_size": 32, "block_size": 64})
+            elif v == "PRF":
+                v = ABuiltin("vstat.prf")
             seeds[k] = v
             if isinstance(v, bytearray):
                 originals[k] = (v, bytes(v))
@@ -382,5 +400,5 @@ def argument_mutation(check, repo):
         check.ob("P4", "P4|argument|%s|%s" % (qual, "+".join("%s%d" % (k, len(originals[k][1])) for k in watched)), not changed, mod.path, fn.lineno,
                  extracted="; ".join(changed) if changed else "%s leaves its bytearray argument(s) %s unchanged" % (qual, ", ".join(watched)),
                  expected="caller-owned mutable inputs are read, never modified (an in-place += on an alias of the argument changes the caller's key)")
-    if n < 8:
+    if n < (5 if own else 8):
         raise AnalysisError("P4: only %d argument-mutation entries" % n)
